@@ -94,3 +94,132 @@ def model_matrices(cases):
 def matrix_scale(case, dim_blocks):
     """entry-wise magnitude of the sums that form each entry (cancellation-aware tolerance scale): 8 n_i sum_l n_l max|Q| * mass factors ~ use row/col norms"""
     return None
+
+
+# ---------------------------------------------------------------- final formulae (Dij, DTi, viscosity, electrical conductivity)
+def impl_final(case, charges):
+    """-> (D, DT, eta, sigma); D, DT, sigma are None where the diffusion systems are singular (a single species)"""
+    duck = Duck(case["masses"], case["nd"], case["T"], charges)
+    with Prescribed(case["Q"]):
+        eta = float(ft.viscosity(duck))
+        try:
+            return (np.array(ft.Dij(duck)), np.array(ft.DTi(duck)), eta, float(ft.electrical_conductivity(duck)))
+        except np.linalg.LinAlgError:
+            return None, None, eta, None
+
+
+def own_D(case, iq, rD):
+    """multicomponent diffusion matrix from the implementation's q matrix, the model's right-hand sides and the documented final formula,
+    in plain numpy (used only to FIND mixtures with genuinely negative coefficients)"""
+    nb = case["nb"]
+    m, n = np.array(case["masses"]), np.array(case["nd"])
+    rho, ntot = float(np.sum(n * m)), float(np.sum(n))
+    B = np.zeros((4 * nb, nb * nb))
+    for i in range(nb):
+        for j in range(nb):
+            B[:nb, i * nb + j] = rD[i, j]
+    X = np.linalg.solve(iq, B)
+    D = np.zeros((nb, nb))
+    for i in range(nb):
+        for j in range(nb):
+            D[i, j] = rho * n[i] / (2 * ntot * m[j]) * math.sqrt(2 * u.k_b * case["T"] / m[i]) * X[i, i * nb + j]
+    return D
+
+
+def wide_case(rng, nb=None):
+    """collision integrals spread over five decades: multicomponent diffusion coefficients of either sign occur"""
+    c = rand_case(rng, nb or rng.randint(3, 4))
+    for ls in ORDERS:
+        M = np.array([[10 ** rng.uniform(-22, -17) for _ in range(c["nb"])] for _ in range(c["nb"])])
+        c["Q"][ls] = (M + M.T) / 2
+    return c
+
+
+def negative_D_cases(rng, want, tries):
+    """-> up to `want` wide cases whose diffusion matrix has an off-diagonal entry below -1e-3 max|D| (decided with own_D)"""
+    out = []
+    lines, cs = [], []
+    for _ in range(tries):
+        c = wide_case(rng)
+        cs.append(c)
+        lines.append("rhs " + " ".join([str(c["nb"]), common.fhex(c["T"])] + [common.fhex(x) for x in c["masses"]] + [common.fhex(x) for x in c["nd"]]))
+    outs = common.run_driver("tr", lines)
+    for c, o in zip(cs, outs):
+        nb = c["nb"]
+        rD = np.array([common.unhex(t) for t in o][:nb ** 3]).reshape(nb, nb, nb)
+        try:
+            iq, _ = impl_matrices(c)
+            D = own_D(c, iq, rD)
+        except np.linalg.LinAlgError:
+            continue
+        if np.all(np.isfinite(D)) and np.min(D) < -1e-3 * np.max(np.abs(D)):
+            out.append(c)
+            if len(out) >= want:
+                break
+    return out
+
+
+def final_formulae(run, cases):
+    """model right-hand sides solved against the implementation's matrices, model final formulae vs implementation outputs.
+    -> list of disagreement dicts (D, DT, viscosity, electrical conductivity)"""
+    dis = []
+    rhs_out = common.run_driver("tr", ["rhs " + " ".join([str(c["nb"]), common.fhex(c["T"])] + [common.fhex(x) for x in c["masses"]] + [common.fhex(x) for x in c["nd"]])
+                                       for c in cases])
+    vlines, vexp = [], []
+    for c, o in zip(cases, rhs_out):
+        nb = c["nb"]
+        v = [common.unhex(t) for t in o]
+        rD = np.array(v[:nb ** 3]).reshape(nb, nb, nb)
+        rT, rV = np.array(v[nb ** 3:nb ** 3 + nb]), np.array(v[nb ** 3 + nb:])
+        iq, iqh = impl_matrices(c)
+        charges = [0] * (nb - 1) + [-1]
+        duck = Duck(c["masses"], c["nd"], c["T"], charges)
+        rho, ntot = duck.calculate_density(), float(np.sum(c["nd"]))
+        try:
+            b = np.zeros(2 * nb)
+            b[:nb] = rV
+            bb = np.linalg.solve(iqh, b).reshape(2, nb)
+            D, DT, eta, sig = impl_final(c, charges)
+        except np.linalg.LinAlgError:
+            continue
+        c0, a = np.zeros((nb, nb)), np.zeros((4, nb))
+        if D is not None:
+            try:
+                for i in range(nb):
+                    for j in range(nb):
+                        b = np.zeros(4 * nb)
+                        b[:nb] = rD[i, j]
+                        c0[i, j] = np.linalg.solve(iq, b)[i]
+                b = np.zeros(4 * nb)
+                b[nb:2 * nb] = rT
+                a = np.linalg.solve(iq, b).reshape(4, nb)
+            except np.linalg.LinAlgError:
+                D = DT = sig = None
+        toks = [str(nb), common.fhex(c["T"]), common.fhex(rho), common.fhex(ntot)] + [common.fhex(x) for x in c["masses"]] + \
+               [common.fhex(x) for x in c["nd"]] + [common.fhex(x) for x in charges] + [common.fhex(x) for x in c0.ravel()] + \
+               [common.fhex(x) for x in a[0]] + [common.fhex(x) for x in a[1]] + [common.fhex(x) for x in bb[0]]
+        vlines.append("values " + " ".join(toks))
+        vexp.append((c, D, DT, eta, sig))
+    vout = common.run_driver("tr", vlines) if vlines else []
+    for (c, D, DT, eta, sig), o in zip(vexp, vout):
+        nb = c["nb"]
+        v = [common.unhex(t) for t in o]
+        mD, mDT = np.array(v[:nb * nb]).reshape(nb, nb), np.array(v[nb * nb:nb * nb + nb])
+        meta, msig = v[nb * nb + nb], v[nb * nb + nb + 2]
+        run.cov["traces_validated_against_impl"] += 1
+        e_eta = common.relerr(meta, eta)
+        if D is None:
+            if e_eta > 1e-7:
+                dis.append({"what": f"viscosity of a {nb}-species mixture: implementation {eta!r}, model final formula on the implementation's own qhat matrix {meta!r}",
+                            "error": e_eta, "D_entry": [0, 0], "impl_D": float("nan"), "model_D": float("nan"), "nb": nb,
+                            "case": {"masses": c["masses"], "nd": c["nd"], "T": c["T"]}})
+            continue
+        eD = float(np.max(np.abs(mD - D) / max(np.max(np.abs(D)), np.max(np.abs(mD)), 1e-300)))
+        e = max(eD, float(np.max(np.abs(mDT - DT) / max(np.max(np.abs(DT)), 1e-300))), e_eta,
+                abs(msig - sig) / max(abs(sig), np.max(np.abs(D)) * 1e-30, 1e-300) if np.isfinite(sig) else 0.0)
+        if e > 1e-7:
+            i, j = np.unravel_index(int(np.argmax(np.abs(mD - D))), D.shape)
+            dis.append({"what": "final formulae (right-hand sides / prefactors / post-processing)", "error": e,
+                        "D_entry": [int(i), int(j)], "impl_D": float(D[i, j]), "model_D": float(mD[i, j]), "nb": nb,
+                        "case": {"masses": c["masses"], "nd": c["nd"], "T": c["T"]}})
+    return dis
